@@ -268,6 +268,7 @@ func main() {
 		v := u1000.RunVariants(rnd, filepath.Join(*work, "variants"), *staticcheck, *nvar)
 		o.Variants = v
 		hx.WriteFile(*out+"_V.v", v.Coq)
+		hx.WriteFile(*out+"_R.v", v.CoqRunner)
 		lap("variants done")
 	}
 	sort.Strings(o.Skipped)
